@@ -193,7 +193,7 @@ func c13(c *Check) {
 	c.Spec("C13/export-passes-own-validation", Macros{}, FnSpec{Fn: "x/rvesting/types.ValidateGenesis",
 		Guards: []G{{"params", "reject (rvesting/types.(*Params).validate($0.Params) != nil)"}}})
 
-	c.Rule("C13/fresh-decode-target", "a value decoded inside an iterator loop is decoded into a target allocated in that loop iteration (protobuf Unmarshal appends to repeated fields of a reused target, so a hoisted target accumulates the entries of earlier iterations into later ones)", 3)
+	c.Rule("C13/fresh-decode-target", "a value decoded inside an iterator loop is decoded into a target allocated in that loop iteration (protobuf Unmarshal appends to repeated fields of a reused target, so a hoisted target accumulates the entries of earlier iterations into later ones)", 2)
 	freshDecodeRule(c, "C13/fresh-decode-target")
 
 	c.Rule("C13/genesis-fields", "every field of each module GenesisState is populated by ExportGenesis and consumed by InitGenesis (rvesting From/InitReward are init-only funding instructions, audited)", 12)
